@@ -248,7 +248,8 @@ func init() {
 			Old:  r5PausedTail,
 			New:  "\tfor _, r := range c.activeReconcilers(pkg) {",
 			More: []Edit{{File: pkgc, Old: "func (c *GenericPackageController) updateStatus(", New: "func (c *GenericPackageController) activeReconcilers(pkg adapters.GenericPackageAccessor) []reconciler {\n\tif pkg.GetSpecPaused() {\n\t\treturn []reconciler{c.objDepStatusReconciler}\n\t}\n\treturn c.reconciler\n}\n\nfunc (c *GenericPackageController) updateStatus("}}},
-		Mutant{Prop: "C09", Name: "r5-benign-active-list-selected-in-place", File: pkgc, Benign: true,
+		Mutant{Prop: "C09", Name: "r5-benign-active-list-selected-in-place", File: pkgc, Benign: true, OwnOnly: true,
+			Why: "silent for C09; C16.R5 counts the sub-reconciler invocations of the package controller and loses two of its four instances when the paused and the unpaused list share one loop (known imprecision of C16.R5, DESIGN 8.5)",
 			Old: r5PausedTail,
 			New: "\tactive := c.reconciler\n\tif pkg.GetSpecPaused() {\n\t\tactive = []reconciler{c.objDepStatusReconciler}\n\t}\n\tfor _, r := range active {"},
 		Mutant{Prop: "C09", Name: "r5-active-list-selection-inverted", File: pkgc,
